@@ -147,6 +147,30 @@ def _len_cmp_as_empty(op, a, b):
     return None
 
 
+def _wrap_int(v, ty):
+    bits = {"8": 8, "16": 16, "32": 32, "64": 64, "128": 128, "size": 64}[ty[1:]]
+    v &= (1 << bits) - 1
+    if ty[0] == "i" and v >= 1 << (bits - 1):
+        v -= 1 << bits
+    return v
+
+
+def fold_binop(op, a, b):
+    ca, cb = const_int(a), const_int(b)
+    if ca is not None and cb is not None and isinstance(a[1], tuple) and a[1][2] not in ("bool", "char"):
+        ty = a[1][2]
+        r = None
+        if op == "Add":
+            r = ca + cb
+        elif op == "Sub":
+            r = ca - cb
+        elif op == "Mul":
+            r = ca * cb
+        if r is not None and re.match(r"^[iu](8|16|32|64|128|size)$", ty):
+            return T("const", T("int", _wrap_int(r, ty), ty))
+    return T("binop", op, a, b)
+
+
 def const_int(t):
     """-> python int if term is an integer/bool/char constant else None"""
     if isinstance(t, tuple) and len(t) >= 2 and t[0] == "const" and isinstance(t[1], tuple) and t[1][0] == "int":
@@ -439,6 +463,8 @@ class Body:
 # --------------------------------------------------------------------------
 # evaluation of operands / rvalues into terms
 
+ENUMS = {}   # enum type string -> (variant names, discriminant values), filled while evaluating
+
 STD_ENUMS = {
     "std::option::Option": ["None", "Some"],
     "std::result::Result": ["Ok", "Err"],
@@ -511,7 +537,7 @@ class Evaluator:
                 # upvar idx of a closure body: resolved by the caller through substitution
                 return T("upvar", idx, self.body.upvar_names.get(idx, ""))
             if t[0] == "overflow" and idx == 0:
-                return T("binop", t[1], t[2], t[3])
+                return fold_binop(t[1], t[2], t[3])
             if t[0] == "overflow" and idx == 1:
                 return T("overflowed", t[1], t[2], t[3])
         return T("field", t, name)
@@ -549,11 +575,17 @@ class Evaluator:
             return self.place(rv["place"])
         if k == "cast":
             inner = self.operand(rv["op"])
-            if rv["kind"].startswith("PointerCoercion") or rv["kind"] in ("Transmute",) and False:
+            if rv["kind"].startswith("PointerCoercion"):
                 return inner
+            ci = const_int(inner)
+            if ci is not None and rv["kind"] == "IntToInt" and re.match(r"^[iu](8|16|32|64|128|size)$", rv["ty"]):
+                return T("const", T("int", _wrap_int(ci, rv["ty"]), rv["ty"]))
             return T("cast", inner, rv["ty"])
         if k == "discr":
-            return T("discr", self.place(rv["place"]), tuple(rv.get("variants", ())), tuple(rv.get("discrs", ())), rv.get("ty", ""))
+            ty = rv.get("ty", "")
+            if rv.get("variants"):
+                ENUMS[ty] = (tuple(rv["variants"]), tuple(rv.get("discrs", ())))
+            return T("discr", self.place(rv["place"]), ty)
         if k == "binop":
             a = self.operand(rv["a"])
             b = self.operand(rv["b"])
@@ -574,7 +606,7 @@ class Evaluator:
                 if ca is not None and cb is not None:
                     return T("const", T("int", int(ca != cb), "bool"))
                 return mk_not(mk_eq(a, b))
-            return T("binop", op, a, b)
+            return fold_binop(op, a, b)
         if k == "unop":
             a = self.operand(rv["a"])
             if rv["op"] == "Not":
@@ -793,7 +825,7 @@ class Walker:
                     exits = body.loop_exits(n)
                     seen_t = []
                     for (src, tgt) in exits:
-                        if tgt in seen_t:
+                        if tgt in seen_t or self._is_unreachable(tgt):
                             continue
                         seen_t.append(tgt)
                     if not seen_t:
@@ -904,6 +936,8 @@ class Walker:
                     if atom in known:
                         if not self._compatible(known[atom], val):
                             continue
+                    if not self._int_feasible(atom, val, known):
+                        continue
                     feasible.append((atom, val, tgt))
                 if not feasible:
                     self._finish(events, ("infeasible",), ev, blocks)
@@ -913,6 +947,7 @@ class Walker:
                     if atom is not None and atom not in known:
                         events.append(Ev("guard", n, atom, val))
                         known[atom] = val
+                        self._int_learn(atom, val, known)
                     elif atom is not None and isinstance(val, tuple) and val and val[0] == "other":
                         pass
                     n = tgt
@@ -924,24 +959,67 @@ class Walker:
                     k2 = dict(known)
                     if atom is not None:
                         ev2.append(Ev("guard", n, atom, val))
-                        if not (isinstance(val, tuple) and val and val[0] == "other"):
-                            k2[atom] = val
-                        else:
-                            k2[atom] = val
+                        k2[atom] = val
+                        self._int_learn(atom, val, k2)
                     self._go(tgt, e2, ev2, k2, blocks + [tgt])
                 return
             self._finish(events, ("unknown-terminator", k), ev, blocks)
             return
+
+    # ---- integer facts: (x == c) guards and integer switches on x must agree
+    @staticmethod
+    def _eq_const(atom):
+        if isinstance(atom, tuple) and atom and atom[0] == "eq":
+            ca, cb = const_int(atom[1]), const_int(atom[2])
+            if ca is not None and cb is None:
+                return atom[2], ca
+            if cb is not None and ca is None:
+                return atom[1], cb
+        return None
+
+    def _int_feasible(self, atom, val, known):
+        ec = self._eq_const(atom)
+        if ec is not None and isinstance(val, bool):
+            x, c = ec
+            iv = known.get(("intval", x))
+            ne = known.get(("intne", x), frozenset())
+            if val:
+                return (iv is None or iv == c) and c not in ne
+            return iv is None or iv != c
+        if isinstance(atom, tuple) and not isinstance(val, bool):
+            iv = known.get(("intval", atom))
+            ne = known.get(("intne", atom), frozenset())
+            if isinstance(val, int):
+                return (iv is None or iv == val) and val not in ne
+            if isinstance(val, tuple) and val and val[0] == "other":
+                return iv is None or iv not in val[1]
+        return True
+
+    def _int_learn(self, atom, val, known):
+        ec = self._eq_const(atom)
+        if ec is not None and isinstance(val, bool):
+            x, c = ec
+            if val:
+                known[("intval", x)] = c
+            else:
+                known[("intne", x)] = known.get(("intne", x), frozenset()) | {c}
+            return
+        if isinstance(atom, tuple) and not isinstance(val, bool):
+            if isinstance(val, int):
+                known[("intval", atom)] = val
+            elif isinstance(val, tuple) and val and val[0] == "other" and all(isinstance(v, int) for v in val[1]):
+                known[("intne", atom)] = known.get(("intne", atom), frozenset()) | set(val[1])
 
     @staticmethod
     def _known_discr(d):
         """discriminant of a freshly built aggregate is a compile-time fact"""
         if isinstance(d, tuple) and d and d[0] == "discr":
             pl = d[1]
-            if isinstance(pl, tuple) and pl and pl[0] == "agg" and d[2] and pl[2] in d[2]:
-                idx = d[2].index(pl[2])
-                if d[3]:
-                    return int(d[3][idx])
+            names, discrs = ENUMS.get(d[2], ((), ()))
+            if isinstance(pl, tuple) and pl and pl[0] == "agg" and names and pl[2] in names:
+                idx = names.index(pl[2])
+                if discrs:
+                    return int(discrs[idx])
                 return idx
         return None
 
@@ -978,8 +1056,7 @@ class Walker:
             neg = not neg
         is_bool = dty == "bool" or (isinstance(d, tuple) and d and d[0] in ("not", "in", "eq", "empty"))
         if isinstance(atom, tuple) and atom and atom[0] == "discr":
-            names = atom[2]
-            discrs = atom[3]
+            names, discrs = ENUMS.get(atom[2], ((), ()))
             place = atom[1]
             a2 = T("variantof", place)
 
@@ -990,7 +1067,7 @@ class Walker:
                             return names[i]
                     return "#%d" % v
                 for pref, vs in STD_ENUMS.items():
-                    if atom[4].startswith(pref) and v < len(vs):
+                    if atom[2].startswith(pref) and v < len(vs):
                         return vs[v]
                 return "#%d" % v
             vals = []
